@@ -261,6 +261,10 @@ class MoleculeResolver:
                 graph_frag.add_node(correspondence[node], **attrs)
                 nx.set_node_attributes(graph_frag, [meta_node], 'fragid')
                 graph_frag.nodes[new_node]['mapping'] = [(fragname, node)]
+                # the fragment id has to be the key of the node in the lower
+                # resolution graph; a running index differs from it whenever
+                # nodes are skipped or not iterated in the order of their keys
+                self.molecule.nodes[new_node]['fragid'] = [meta_node]
                 self.molecule.nodes[new_node]['mapping'] = [(fragname, node)]
 
             for a, b in fragment.edges:
